@@ -22,6 +22,7 @@ class Enc:
         self.sc = sc
         self.job = {j["name"]: i for i, j in enumerate(sc["jobs"])}
         self.grp = {g["name"]: i for i, g in enumerate(sc["groups"])}
+        self.moved = {}      # pid -> rows consolidated by the collection in progress
 
     def J(self, name):
         return cN(self.job[name])
@@ -89,9 +90,16 @@ class Enc:
                     add(i, f"ESqueue {p} {clist([cN(int(x)) for x in ev['active']])}")
                 else:
                     add(i, f"ESqueueFail {p}")
+            elif k == "moved":
+                self.moved.setdefault(p, []).extend(ev["rows"])
             elif k == "collect":
+                got = self.moved.pop(p, [])
                 if ev["ok"]:
                     add(i, f"ECollect {p} {clist([self.row(*r) for r in ev['rows']])}")
+                elif got:
+                    # the collection failed half way: the rows of the node files it had already consolidated are in
+                    # processed_results.csv all the same
+                    add(i, f"ECollect {p} {clist([self.row(*r) for r in got])}")
             elif k == "sub_cancel":
                 add(i, f"ESubCancel {p} {self.J(ev['job'])}")
             elif k == "marker_touch":
@@ -264,7 +272,7 @@ def reference(sc):
     return out
 
 
-STRATEGIES = ["random", "random", "nodes_first", "submitter_first", "sticky", "slow_finish", "env_first", "actors_first"]
+STRATEGIES = ["random", "random", "nodes_first", "submitter_first", "sticky", "slow_finish", "env_first", "actors_first", "fail_first"]
 
 
 # ---------------------------------------------------------------------------------------------
@@ -403,6 +411,17 @@ def py_monitors(sc, trace, final=None):
                 collected.append(n)
                 if n not in rows:
                     probs.append(("C08", "row-fabricated", f"collected a row of {n} that no node wrote", i))
+        elif k == "prepare_resubmit" and ev.get("ok"):
+            # a resubmission legitimately runs the selected jobs again: forget their first-phase history
+            for n in ev["rerun"]:
+                launched.pop(n, None)
+                handed.pop(n, None)
+                rows.pop(n, None)
+                while n in collected:
+                    collected.remove(n)
+            completes.clear()
+            summary_seen = False
+            teardown_since_summary = 0
         elif k == "mark_canceled":
             canceled_at = i
         elif k == "mark_complete":
@@ -565,6 +584,8 @@ def run_plan(sc, seed, plan=None):
     faults = {}
     if plan.get("write_error"):
         faults["write_error"] = tuple(plan["write_error"])
+    if plan.get("finish_order"):
+        faults["finish_order"] = list(plan["finish_order"])
     vc = vcluster.VirtualCluster(sc, seed=seed, strategy=plan.get("strategy", "random"), schedule=plan.get("schedule"),
                                  break_stale=bool(plan.get("break_stale")), faults=faults)
     applied = []
@@ -597,29 +618,40 @@ def run_plan(sc, seed, plan=None):
         if any(b["state"] == "SUSPENDED" for b in vc.hpc.values()):      # never leave a batch suspended forever
             apply_action(vc, {"do": "resume"}, rng)
             vc.run()
-        rec = 0
-        idle = 0
-        while rec < plan.get("recover", 14):
-            st = vc.status()
-            if st.get("complete") or "error" in st:
-                break
-            if _alive(vc):
-                break
-            vc.trace.append({"k": "quiescent", "p": 0, "snapshot": st, "active": vc.active_ids()})
-            n0 = len(vc.trace)
-            vc.try_submit()
-            vc.run()
-            rec += 1
-            # a recovery round that changes nothing will not change anything next time either
-            if not any(e["k"] in ("sbatch", "mark_complete", "update_status") for e in vc.trace[n0:]):
-                idle += 1
-                if idle >= 2:
+        def recover_loop():
+            rec = 0
+            idle = 0
+            while rec < plan.get("recover", 14):
+                st = vc.status()
+                if st.get("complete") or "error" in st:
                     break
-            else:
-                idle = 0
+                if _alive(vc):
+                    break
+                vc.trace.append({"k": "quiescent", "p": 0, "snapshot": st, "active": vc.active_ids()})
+                n0 = len(vc.trace)
+                vc.try_submit()
+                vc.run()
+                rec += 1
+                # a recovery round that changes nothing will not change anything next time either
+                if not any(e["k"] in ("sbatch", "mark_complete", "update_status") for e in vc.trace[n0:]):
+                    idle += 1
+                    if idle >= 2:
+                        break
+                else:
+                    idle = 0
+            return rec
+        rec = recover_loop()
+        if plan.get("then_resubmit") is not None and vc.status().get("complete") and not _alive(vc):
+            # second phase: `jade resubmit-jobs` on the completed submission, then run to completion again.
+            # Resubmission is outside the Coq system model: the acceptor judges the trace up to this marker,
+            # the Python monitors judge all of it.
+            vc.trace.append({"k": "phase2", "p": 0, "flags": plan["then_resubmit"]})
+            vc.resubmit(**plan["then_resubmit"])
+            vc.run()
+            rec += recover_loop()
         return {"trace": vc.trace, "final": vc.final_results(), "status": vc.status(), "stuck": [a.label for a in _alive(vc)],
                 "excs": [(a.label, type(a.exc).__name__, str(a.exc)[:200]) for a in vc.actors if a.exc is not None],
                 "recoveries": rec, "choices": list(vc.choices_made), "applied": applied, "fired": list(vc.fired),
-                "launches": list(vc.launches)}
+                "launches": list(vc.launches), "disk_rows": vc.row_names_on_disk()}
     finally:
         vc.close()
